@@ -370,6 +370,17 @@ fn validate_nameserver_response(
     if let Some((final_name, cname_map)) =
         follow_cnames(&response.answers, &question.name, question.qtype)
     {
+        // the names whose `CNAME` was followed to get from the query name to
+        // `final_name`
+        let mut on_path = HashSet::new();
+        let mut path_name = &question.name;
+        while let Some(next) = cname_map.get(path_name) {
+            if !on_path.insert(path_name.clone()) {
+                break;
+            }
+            path_name = next;
+        }
+
         // get RRs matching the query name or the names it `CNAME`s to
 
         let mut rrs_for_query = Vec::<ResourceRecord>::with_capacity(response.answers.len());
@@ -386,8 +397,12 @@ fn validate_nameserver_response(
             if rtype.matches(question.qtype) && an.name == final_name {
                 rrs_for_query.push(an.clone());
                 seen_final_record = true;
-            } else if rtype == RecordType::CNAME && cname_map.contains_key(&an.name) {
-                rrs_for_query.push(an.clone());
+            } else if let RecordTypeWithData::CNAME { cname } = &an.rtype_with_data {
+                // only the `CNAME` RRs which were followed, not any other
+                // `CNAME` the server chose to include
+                if on_path.contains(&an.name) && cname_map.get(&an.name) == Some(cname) {
+                    rrs_for_query.push(an.clone());
+                }
             }
         }
 
@@ -448,7 +463,9 @@ fn validate_nameserver_response(
         let mut nameserver_rrs = Vec::<ResourceRecord>::with_capacity(ns_names.len() * 2);
         for rr in &response.answers {
             match &rr.rtype_with_data {
-                RecordTypeWithData::NS { nsdname } if ns_names.contains(nsdname) => {
+                RecordTypeWithData::NS { nsdname }
+                    if rr.name == match_name && ns_names.contains(nsdname) =>
+                {
                     nameserver_rrs.push(rr.clone());
                 }
                 RecordTypeWithData::A { .. } if ns_names.contains(&rr.name) => {
@@ -462,7 +479,9 @@ fn validate_nameserver_response(
         }
         for rr in &response.authority {
             match &rr.rtype_with_data {
-                RecordTypeWithData::NS { nsdname } if ns_names.contains(nsdname) => {
+                RecordTypeWithData::NS { nsdname }
+                    if rr.name == match_name && ns_names.contains(nsdname) =>
+                {
                     nameserver_rrs.push(rr.clone());
                 }
                 _ => (),
